@@ -9,9 +9,10 @@ import (
 	"github.com/mna/pigeon/ast"
 )
 
-// Avoid groups the known-defect avoidance switches of the text level. The
-// zero value avoids everything (the default of every tool); IncludeKnown()
-// lifts all of them.
+// Avoid groups the known-defect avoidance switches. The zero value avoids
+// everything (the default of every tool); a true field LIFTS that avoidance.
+// IncludeKnown() lifts all of them (-include-known), ParseAvoid lifts the
+// named ones (-lift name,name).
 type Avoid struct {
 	// D3: `-` as a class member anywhere but the first/last position, or
 	// written as an escape.
@@ -21,24 +22,86 @@ type Avoid struct {
 	MultiLineEOS bool
 	// D21: `//{` inside a code block.
 	CodeSlashSlashBrace bool
-	// "\400": octal escapes above \377.
+	// "\400": octal escapes above \377 (not generated at all at present).
 	BigOctal bool
 	// i flag on classes with ranges or Unicode classes (D14).
 	ClassFoldRanges bool
-	// F1: reserved words as rule names (see findings_tools/F1).
+	// F1: reserved words as rule names (findings_tools/F1-*).
 	ReservedRuleNames bool
 	// F2: '\xHH' / '\NNN' >= 0x80 in single-quoted literals (byte, not rune).
 	QuoteByteRune bool
-	// F3: bootstrap scanner rejects U+E000 escapes.
+	// F3: the bootstrap scanner rejects escapes of U+E000.
 	BootE000 bool
 	// D10/D11: shapes on which -optimize-grammar changes the language
 	// (adjacent literals around an inlined rule, adjacent inverted classes).
 	OptMerge bool
+	// D13: -optimize-grammar on grammars with throw/recover or undefined
+	// rule references (pvtool, pve2e).
+	OptThrow bool
+	// F4: -no-recover on texts on which an action of the front-end grammar
+	// panics (pvtool).
+	NoRecoverPanic bool
+}
+
+var avoidNames = []struct {
+	name string
+	get  func(*Avoid) *bool
+}{
+	{"classdash", func(a *Avoid) *bool { return &a.ClassDash }},
+	{"multilineeos", func(a *Avoid) *bool { return &a.MultiLineEOS }},
+	{"slashslashbrace", func(a *Avoid) *bool { return &a.CodeSlashSlashBrace }},
+	{"bigoctal", func(a *Avoid) *bool { return &a.BigOctal }},
+	{"classfold", func(a *Avoid) *bool { return &a.ClassFoldRanges }},
+	{"reserved", func(a *Avoid) *bool { return &a.ReservedRuleNames }},
+	{"quotebyte", func(a *Avoid) *bool { return &a.QuoteByteRune }},
+	{"boote000", func(a *Avoid) *bool { return &a.BootE000 }},
+	{"optmerge", func(a *Avoid) *bool { return &a.OptMerge }},
+	{"optthrow", func(a *Avoid) *bool { return &a.OptThrow }},
+	{"norecoverpanic", func(a *Avoid) *bool { return &a.NoRecoverPanic }},
 }
 
 // IncludeKnown returns the Avoid value that lifts every avoidance.
 func IncludeKnown() Avoid {
-	return Avoid{true, true, true, true, true, true, true, true, true}
+	var a Avoid
+	for _, n := range avoidNames {
+		*n.get(&a) = true
+	}
+	return a
+}
+
+// AvoidNames lists the names that ParseAvoid understands.
+func AvoidNames() []string {
+	var out []string
+	for _, n := range avoidNames {
+		out = append(out, n.name)
+	}
+	return out
+}
+
+// ParseAvoid builds the Avoid value of a tool from its -include-known and
+// -lift flags (lift is a comma-separated list of AvoidNames).
+func ParseAvoid(includeKnown bool, lift string) (Avoid, error) {
+	var a Avoid
+	if includeKnown {
+		a = IncludeKnown()
+	}
+	for _, w := range strings.Split(lift, ",") {
+		w = strings.TrimSpace(w)
+		if w == "" {
+			continue
+		}
+		ok := false
+		for _, n := range avoidNames {
+			if n.name == w {
+				*n.get(&a) = true
+				ok = true
+			}
+		}
+		if !ok {
+			return a, fmt.Errorf("unknown avoidance %q (known: %s)", w, strings.Join(AvoidNames(), ", "))
+		}
+	}
+	return a, nil
 }
 
 const hexLower = "0123456789abcdef"
